@@ -3,6 +3,10 @@
 //!     fec: nocode|rs28|rs28us|raptorq|raptor   src: buf|stream   forces: string of 0/1 or '-'
 //!     reads: comma separated hex read sizes of the stream (0 = EOF-like short read not used) or '-'
 //!   output: <profile> P:sbn:esi:close:k:hexpayload ... NONE|PANIC
+//!   Y <fec> <e> <b> <parity> <window> <cenc> <start-hex> <content-hex> <reads>
+//!     C20 under a content encoding (zlib|deflate|gzip): the same object from a buffer and from a stream
+//!     (handed over at position <start>, read in the given sizes)
+//!   output: <profile> <run of the buffer> // <run of the stream>
 use crate::util::*;
 use flute::core::Oti;
 use flute::sender::{ObjectDesc, TransferConfig};
@@ -69,8 +73,96 @@ pub fn profile() -> &'static str {
     }
 }
 
+/// one object through FileDesc::new + BlockEncoder, content-encoded; stream = Some((start, read sizes))
+fn run_cenc(oti: &Oti, window: usize, cenc: flute::core::lct::Cenc, content: &[u8], stream: Option<(usize, Vec<usize>)>) -> Vec<String> {
+    let res = catch(|| {
+        let mut pk: Vec<String> = Vec::new();
+        let alloc = ToiAllocator::new(flute::sender::TOIMaxLength::ToiMax32, Some(1));
+        let mut tc = TransferConfig::default();
+        tc.toi = Some(ToiAllocator::allocate(&alloc));
+        tc.cenc = cenc;
+        let url = url::Url::parse("file:///o").unwrap();
+        let mut handle: Option<*mut ChunkStream> = None;
+        let obj = match &stream {
+            None => ObjectDesc::create_from_buffer(content.to_vec(), "a/b", &url, true, tc),
+            Some((start, reads)) => {
+                let cs = Box::new(ChunkStream { data: content.to_vec(), pos: (*start).min(content.len()), sched: reads.clone(), i: 0, armed: true });
+                handle = Some(Box::as_ref(&cs) as *const ChunkStream as *mut ChunkStream);
+                ObjectDesc::create_from_stream(cs, "a/b", &url, true, tc)
+            }
+        };
+        let _ = handle;
+        let obj = match obj {
+            Ok(o) => o,
+            Err(_) => {
+                pk.push("OBJERR".into());
+                return pk;
+            }
+        };
+        pk.push(format!("L:{:x}:{:x}:{}", obj.content_length, obj.transfer_length, obj.md5.clone().unwrap_or_default()));
+        let fd = match FileDesc::new(0, obj, oti, None, false) {
+            Ok(f) => Arc::new(f),
+            Err(_) => {
+                pk.push("REFUSED".into());
+                return pk;
+            }
+        };
+        let mut enc = match BlockEncoder::new(fd, window, true) {
+            Ok(e) => e,
+            Err(_) => {
+                pk.push("ENCERR".into());
+                return pk;
+            }
+        };
+        let mut i = 0usize;
+        loop {
+            i += 1;
+            if i > 200_000 {
+                pk.push("HANG".into());
+                return pk;
+            }
+            match enc.read(false) {
+                None => {
+                    pk.push("NONE".into());
+                    return pk;
+                }
+                Some(p) => pk.push(format!("P:{:x}:{:x}:{}:{:x}:{}", p.sbn, p.esi, if p.close_object { 1 } else { 0 }, p.source_block_length, hex(&p.payload))),
+            }
+        }
+    });
+    res.unwrap_or_else(|| vec!["PANIC".into()])
+}
+
+fn eval_y(t: &[&str]) -> String {
+    if t.len() < 10 {
+        return "BAD".into();
+    }
+    let e = u16::from_str_radix(t[2], 16).unwrap();
+    let b = u32::from_str_radix(t[3], 16).unwrap();
+    let parity = u32::from_str_radix(t[4], 16).unwrap();
+    let window = usize::from_str_radix(t[5], 16).unwrap();
+    let cenc = match t[6] {
+        "zlib" => flute::core::lct::Cenc::Zlib,
+        "deflate" => flute::core::lct::Cenc::Deflate,
+        _ => flute::core::lct::Cenc::Gzip,
+    };
+    let start = usize::from_str_radix(t[7], 16).unwrap();
+    let content = unhex(t[8]);
+    let reads: Vec<usize> = if t[9] == "-" { vec![] } else { t[9].split(',').map(|x| usize::from_str_radix(x, 16).unwrap()).collect() };
+    let oti = match make_oti(t[1], e, b, parity) {
+        Some(o) => o,
+        None => return format!("{} BADOTI", profile()),
+    };
+    let a = run_cenc(&oti, window, cenc, &content, None);
+    let s = run_cenc(&oti, window, cenc, &content, Some((start, reads)));
+    format!("{} {} // {}", profile(), a.join(" "), s.join(" "))
+}
+
 pub fn eval(input: &str) -> String {
     let t: Vec<&str> = input.split_whitespace().collect();
+    if t[0] == "Y" {
+        return eval_y(&t);
+    }
     if t[0] != "E" || t.len() < 11 {
         return "BAD".into();
     }
@@ -240,6 +332,29 @@ fn gen(args: &Args, emit: &mut dyn FnMut(String), streams: bool) {
                 let src = if rng.chance(1, 2) { format!("stream@{:x}", rng.below(c.len() as u64 + 2)) } else { "stream".to_string() };
                 emit(format!("E {} {:x} {:x} {:x} {:x} {} {} {} - {}", fec, e, b, parity, w, closable, src, hex(&c), sched.join(",")));
             }
+        }
+    }
+    // content-encoded objects: buffer and stream must give the same packets (and the same lengths and MD5)
+    if streams {
+        let ycount = if thorough { 1500 } else { 150 };
+        for k in 0..ycount {
+            let fec = *rng.pick(&["nocode", "rs28", "raptorq"]);
+            let e = *rng.pick(&[4u16, 8, 16]);
+            let b = rng.range(2, 6) as u32;
+            let parity = if fec == "nocode" { 0 } else { 1 };
+            // compressible and incompressible contents, a few bytes to tens of kilobytes (several internal buffers)
+            let l = match k % 5 {
+                0 => rng.range(1, 40),
+                1 => rng.range(40, 700),
+                2 => rng.range(700, 5000),
+                3 => rng.range(5000, 40000),
+                _ => rng.range(1, 3000),
+            } as usize;
+            let c: Vec<u8> = if k % 2 == 0 { (0..l).map(|i| ((i / 9) % 7) as u8 + b'a').collect() } else { content(&mut rng, l) };
+            let start = if rng.chance(1, 2) { 0 } else { rng.below(l as u64 + 2) };
+            let sched: Vec<String> = (0..24).map(|_| format!("{:x}", rng.range(1, 300))).collect();
+            let ce = *rng.pick(&["zlib", "deflate", "gzip"]);
+            emit(format!("Y {} {:x} {:x} {:x} {:x} {} {:x} {} {}", fec, e, b, parity, rng.range(1, 3), ce, start, hex(&c), sched.join(",")));
         }
     }
 }
